@@ -111,9 +111,29 @@ def coq_prepare():
         sh("coq_makefile -f _CoqProject -o Makefile", cwd=COQ, check=True)
 
 
+class FLock:
+    """Inter-process lock: several checks (or people) may run in /verif at once."""
+
+    def __init__(self, name):
+        os.makedirs(os.path.join(CACHE, "locks"), exist_ok=True)
+        self.path = os.path.join(CACHE, "locks", name)
+
+    def __enter__(self):
+        import fcntl
+        self.f = open(self.path, "w")
+        fcntl.flock(self.f, fcntl.LOCK_EX)
+        return self
+
+    def __exit__(self, *a):
+        import fcntl
+        fcntl.flock(self.f, fcntl.LOCK_UN)
+        self.f.close()
+
+
 def coq_make(targets, timeout=1500):
-    coq_prepare()
-    rc, out, dt = sh(["make", "-j%d" % NCPU] + list(targets), cwd=COQ, timeout=timeout)
+    with FLock("coq"):
+        coq_prepare()
+        rc, out, dt = sh(["make", "-j%d" % NCPU] + list(targets), cwd=COQ, timeout=timeout)
     return rc, out, dt
 
 
@@ -152,9 +172,10 @@ def coq_property_gate(pid, dirs):
     Returns dict(obligations, discharged, theorems, axioms, lemmas, problems, cmd, wall)."""
     prop_v = os.path.join(pid, "Properties.v")
     vo = os.path.join(COQ, pid, "Properties.vo")
-    if os.path.exists(vo):
-        os.unlink(vo)
-    rc, out, dt = coq_make([os.path.join(pid, "Properties.vo")])
+    with FLock("coq-gate-" + pid):
+        if os.path.exists(vo):
+            os.unlink(vo)
+        rc, out, dt = coq_make([os.path.join(pid, "Properties.vo")])
     src = strip_coq_comments(open(os.path.join(COQ, prop_v)).read())
     theorems = re.findall(r"\b(?:Theorem|Lemma|Corollary|Example|Fact)\s+([A-Za-z0-9_']+)", src)
     printed = re.findall(r"Print\s+Assumptions\s+([A-Za-z0-9_'.]+)\s*\.", src)
@@ -216,6 +237,11 @@ def ocaml_build(pid):
     rc, out, _ = coq_make([os.path.join(pid, "Driver.vo")])
     if rc != 0:
         raise CheckFailure("coq build of %s/Driver.vo failed:\n%s" % (pid, out[-3000:]))
+    with FLock("ocaml-" + low):
+        return _ocaml_build_locked(pid, low, d)
+
+
+def _ocaml_build_locked(pid, low, d):
     srcs = [os.path.join(COQ, pid, "Extract.v"), os.path.join(ROOT, "ocaml", "zconv.ml"),
             os.path.join(ROOT, "ocaml", low, "main.ml")]
     vos = sorted(glob.glob(os.path.join(COQ, "**", "*.vo"), recursive=True))
@@ -248,6 +274,8 @@ def cargo_build(bins, profiles=("debug", "release")):
     if not os.path.exists(lock):
         shutil.copy(os.path.join(REPO, "Cargo.lock"), lock)
     exes = {}
+    if not bins:
+        return exes
     for prof in profiles:
         cmd = ["cargo", "build", "--offline", "--quiet"] + (["--release"] if prof == "release" else [])
         for b in bins:
